@@ -84,4 +84,41 @@ Proof.
     apply Hdisc in E. discriminate.
 Qed.
 
+(** the same for libaddrxlat's enumeration *)
+Lemma api_contract_ax s body aops status :
+  wf s -> Forall2 matches body aops -> Forall is_add_nonempty aops ->
+  addrxlat_doc status = true -> (status = ADDRXLAT_OK <-> body = []) ->
+  exists s', api_call s body = Ok s' /\ ax_status_msg_ok (status, msg_present s') = true.
+Proof.
+  intros Hw Hm Hall Hdoc Hdisc. destruct body as [|o body].
+  - destruct (api_success_no_error s Hw) as (s' & Hr & _ & Hmsg). exists s'. split; [exact Hr|].
+    rewrite (proj2 Hdisc eq_refl), Hmsg. reflexivity.
+  - destruct (api_failure_message s (o :: body) aops Hw Hm Hall ltac:(discriminate)) as (s' & Hr & Hmsg).
+    exists s'. split; [exact Hr|]. rewrite Hmsg. unfold ax_status_msg_ok. cbn [fst snd]. rewrite Hdoc.
+    destruct (Z.eqb_spec status ADDRXLAT_OK) as [E|_]; [|reflexivity].
+    apply Hdisc in E. discriminate.
+Qed.
+
+(** what an entry point that clears first leaves behind does not depend on
+    what was there before: two contexts with the same buffer size end with the
+    same text (so nothing of an old message can survive or be chained) *)
+Lemma api_call_forgets s1 s2 body aops :
+  wf s1 -> wf s2 -> length (e_buf s1) = length (e_buf s2) -> Forall2 matches body aops ->
+  exists s1' s2', api_call s1 body = Ok s1' /\ api_call s2 body = Ok s2' /\ cur s1' = cur s2'.
+Proof.
+  intros Hw1 Hw2 Hl Hm.
+  destruct (run_ok F vsnprintf failure junk lbuf_extra lbuf_extra_ge failure_formats
+                   (OpClear F :: body) s1 (AClear :: aops) Hw1) as (s1' & Hr1 & _ & _ & Hv1).
+  { constructor; [exact I|exact Hm]. }
+  destruct (run_ok F vsnprintf failure junk lbuf_extra lbuf_extra_ge failure_formats
+                   (OpClear F :: body) s2 (AClear :: aops) Hw2) as (s2' & Hr2 & _ & _ & Hv2).
+  { constructor; [exact I|exact Hm]. }
+  exists s1', s2'. split; [exact Hr1|]. split; [exact Hr2|].
+  unfold cur. rewrite Hv1, Hv2, Hl. reflexivity.
+Qed.
+
 End Api.
+
+Lemma ax_entries_start_clear :
+  Forall (fun e => e = AxCtxErr \/ ax_starts_clear 2 e = true) ax_entries.
+Proof. repeat (constructor; [first [now right | now left]|]). constructor. Qed.
